@@ -5,7 +5,7 @@ use crate::core::case::*;
 use crate::core::rng::Rng;
 use crate::core::rt;
 use crate::gen::WeightRegime;
-use crate::oracle::close;
+use crate::oracle::close_rel as close;
 use crate::oracle::dist::{weights_exact, DistOracle};
 use crate::pool;
 use crate::runner::Ctx;
@@ -106,11 +106,12 @@ impl Prop for C08Prop {
             large_pct: 25,
             n_small: (1, 9),
             n_large: (21, 40),
-            regimes: vec![WeightRegime::AllNan, WeightRegime::Dyadic, WeightRegime::SmallInt, WeightRegime::Nasty],
+            regimes: vec![WeightRegime::AllNan, WeightRegime::Dyadic, WeightRegime::SmallInt, WeightRegime::Nasty, WeightRegime::Tiny, WeightRegime::NearEqual, WeightRegime::MixedScale],
             kinds: AlgoGen::all_kinds(),
             shapes: None,
             lifecycle_pct: 25,
             keyings: 1,
+            boundary_per_mille: 0,
         }
         .gen("C08", seed, idx)
     }
@@ -126,6 +127,9 @@ impl Prop for C08Prop {
         }
         let budget = rt::budget(n, snap.edges.len());
         let mut rng = Rng::new(case.seed, "c08.queries");
+        if case.seed % 4 == 0 {
+            algo::poison_prelude(env, cx);
+        }
         let mut modes = vec![false];
         if !snap.edges.is_empty() && snap.weighted() && algo::all_positive(snap) {
             modes.push(true);
@@ -149,7 +153,11 @@ impl Prop for C08Prop {
             let exact = !weighted || weights_exact(snap);
             let orc = DistOracle::new(snap, !weighted);
             let heavy = algo::sigma_max(&orc) > 500.0;
-            let wp = !heavy; // with_paths for the base answers
+            // path-level relations need weights whose sums floats can tell apart (see algo::comparable_scale)
+            let wp = !heavy && (!weighted || algo::comparable_scale(snap)); // with_paths for the base answers
+            if weighted && !algo::comparable_scale(snap) {
+                cx.count("probe.absorbing_weight_scales_distances_only");
+            }
             let mode = if weighted { "weighted" } else { "hop" };
             // R1: the three entry points agree
             let ap = algo::sp2_conv(lib!("all_pairs", pool::scoped(env.pool, || dijkstra::all_pairs(g, weighted, None, None, false, wp))));
@@ -212,13 +220,18 @@ impl Prop for C08Prop {
                     cutoffs.push(Some(w[1]));
                     cutoffs.push(Some((w[0] + w[1]) / 2.0));
                 }
+                for d in dvals.iter().filter(|d| **d > 0.0 && d.is_finite()) {
+                    // one ulp below and above a reachable distance
+                    cutoffs.push(Some(f64::from_bits(d.to_bits() - 1)));
+                    cutoffs.push(Some(f64::from_bits(d.to_bits() + 1)));
+                }
                 if dvals.len() >= 2 {
                     cutoffs.push(Some(dvals[1] / 2.0)); // below the smallest positive distance
                     cutoffs.push(Some(dvals[dvals.len() - 1] + 1.0));
                 }
-                if cutoffs.len() > 7 {
+                if cutoffs.len() > 9 {
                     let mut keep = vec![None];
-                    for _ in 0..6 {
+                    for _ in 0..8 {
                         keep.push(cutoffs[1 + rng.below(cutoffs.len() - 1)]);
                     }
                     cutoffs = keep;
